@@ -52,6 +52,10 @@ func (c *client) Create(ctx context.Context, record kvs.Record) (string, error) 
 		return "", checkErr(err)
 	}
 	if !ok {
+		// the contract requires the version of the existing record to be reported
+		if r, err := c.Get(ctx, record.Key); err == nil {
+			return r.Version, errors.ErrExist
+		}
 		return "", errors.ErrExist
 	}
 	return record.Version, nil
